@@ -132,8 +132,9 @@ def generate(rng, tier):
     calls = []
     for gi, grp in enumerate(groups):
         vs = list(grp)
-        if g.chance(0.2) and gi > 0:
-            vs = vs + [g.pick(groups[gi - 1])]        # repeated request
+        if g.chance(0.25) and gi > 0:
+            rep_ = g.pick(groups[gi - 1])             # repeated request,
+            vs = ([rep_] + vs) if g.chance(0.5) else (vs + [rep_])  # 1st/last
         calls.append({'vars': vs, 'ests': sorted(
             g.sample(range(len(ests)), g.randint(0, len(ests))))})
     if g.chance(0.3):
